@@ -2,6 +2,8 @@
 Pipeline behind bin/check (DESIGN §6). Standard library only.
 """
 import sys, os, json, subprocess, time, fcntl, hashlib, re, glob
+sys.path.insert(0, os.path.dirname(os.path.abspath(__file__)))
+import coreutil
 
 VERIF = os.path.dirname(os.path.dirname(os.path.abspath(__file__)))
 LEAN = os.path.join(VERIF, "lean")
@@ -39,9 +41,9 @@ def load_props():
     for path in sorted(glob.glob(os.path.join(VERIF, "bin", "proofs.d", "C*.json"))):
         pid = os.path.basename(path)[:-5]
         with open(path) as f:
-            pr = json.load(f)
+            pr = coreutil.merge_core(pid, json.load(f))
         cfg = props.setdefault(pid, {})
-        for k in ("modules", "obligations", "pending", "trusted_extra", "level", "explanation"):
+        for k in ("modules", "obligations", "own_obligations", "pending", "trusted_extra", "level", "explanation"):
             if k in pr:
                 cfg[k] = pr[k]
     return props
